@@ -69,6 +69,72 @@ func thoroughExtras(prop *rules.Prop, tables *an.Tables, base *propRun) {
 	sum["detected"], sum["missed"], sum["skipped"] = caught, missed, skipped
 	base.extraCov["self_validation"] = sum
 	fmt.Printf("  self-validation: %d seeded faults for %s: %d detected, %d missed, %d skipped\n", len(res), prop.ID, len(caught), len(missed), len(skipped))
+
+	// the other direction: behaviour-preserving rewrites of the code the rules read must leave the check silent
+	ben := benignValidate(prop.ID)
+	bsum := map[string]any{"refactorings": len(ben)}
+	var silent, alarms, bskipped []string
+	for _, m := range ben {
+		switch m.Outcome {
+		case "silent":
+			silent = append(silent, m.Name)
+		case "skipped":
+			bskipped = append(bskipped, m.Name+": "+m.Note)
+		default:
+			alarms = append(alarms, m.Name+" ["+strings.Join(m.Rules, ",")+"]")
+			fmt.Printf("SELFTEST-FALSE-ALARM: property=%s behaviour-preserving refactoring %s makes this check report a violation (%s)\n", prop.ID, m.Name, strings.Join(m.Rules, ","))
+		}
+	}
+	bsum["silent"], bsum["false_alarms"], bsum["skipped"] = len(silent), alarms, bskipped
+	base.extraCov["benign_refactorings"] = bsum
+	fmt.Printf("  self-validation: %d behaviour-preserving refactorings: %d silent, %d false alarms, %d skipped\n", len(ben), len(silent), len(alarms), len(bskipped))
+}
+
+// benignValidate applies every recorded behaviour-preserving refactoring
+// (/verif/selftest/benign/*) to a scratch copy and runs the check for prop
+// ("" = every property) against it; the expected outcome is silence.
+func benignValidate(prop string) []mutant {
+	dirs, _ := filepath.Glob(filepath.Join(verifDir(), "selftest", "benign", "*"))
+	sort.Strings(dirs)
+	props := []string{prop}
+	if prop == "" {
+		props = rules.PropIDs()
+	}
+	type job struct {
+		m mutant
+		p string
+	}
+	var jobs []job
+	for _, d := range dirs {
+		if _, err := os.Stat(filepath.Join(d, "patch.diff")); err != nil {
+			continue
+		}
+		for _, p := range props {
+			jobs = append(jobs, job{mutant{Name: "benign/" + filepath.Base(d), Dir: d}, p})
+		}
+	}
+	res := make([]mutant, len(jobs))
+	sem := make(chan struct{}, 6)
+	var wg sync.WaitGroup
+	for i, j := range jobs {
+		wg.Add(1)
+		go func(i int, m mutant, p string) {
+			defer wg.Done()
+			sem <- struct{}{}
+			defer func() { <-sem }()
+			r := runMutant(m, p)
+			switch r.Outcome {
+			case "detected":
+				r.Outcome = "false-alarm"
+			case "missed":
+				r.Outcome, r.Note = "silent", ""
+			}
+			r.Name = r.Name + "@" + p
+			res[i] = r
+		}(i, j.m, j.p)
+	}
+	wg.Wait()
+	return res
 }
 
 type mutant struct {
@@ -215,6 +281,18 @@ func cmdSelftest(args []string) int {
 		}
 	}
 	fmt.Printf("selftest: %d seeded faults, %d missed\n", len(res), miss)
+	ben := benignValidate(prop)
+	fa := 0
+	for _, m := range ben {
+		if m.Outcome != "silent" {
+			fmt.Printf("%-11s %-60s %s %s\n", m.Outcome, m.Name, strings.Join(m.Rules, ","), m.Note)
+		}
+		if m.Outcome == "false-alarm" {
+			fa++
+		}
+	}
+	fmt.Printf("selftest: %d refactoring x property runs, %d false alarms\n", len(ben), fa)
+	miss += fa
 	if miss > 0 {
 		return 1
 	}
